@@ -542,6 +542,7 @@ impl Parser {
                 self.next_token();
                 ElseIfExpr::Else(self.parse_block_statement())
             } else {
+                self.push_error("expected 'if' or '{' after 'else'");
                 return Expression::Invalid;
             }
         } else {
